@@ -34,7 +34,7 @@ ALL = 0xFFFFFFFF
 # monitor capability -> flag bits that must ALL be disabled for an attempt to be a violation
 MON = {"fs-read": 64, "fs-write": 32, "fs-temp": 1024, "net-connect": 4, "net-listen": 8, "net": 4 | 8,
        "subprocess": 2, "env": 256, "signal": 8192}
-IGNORED_MON = {"umask"}          # not a capability of the statement
+IGNORED_MON = {"umask", "proc-signal"}   # not capabilities of the statement (signalling an owned child is not process creation)
 # fixed device the runtime reads for os/cryptorand; not a path of the program's choosing (reported, not flagged)
 EXEMPT_ARGS = {"/dev/urandom"}
 WITNESS_BIT = {"ffi-use": 2048, "ffi-define": 16, "ffi-jit": 4096, "env": 256}
@@ -151,6 +151,7 @@ class Run:
         self.nattempts = 0
         self.ncalls = 0
         self.stuck_in = None
+        self.last_name = None
         self.names_n = 0
 
     def probe(self, k, n=1):
@@ -162,7 +163,7 @@ class C18(Driver):
     level = "exploration"
     flavours = ["plain"]
     budgets = {"quick": 60, "thorough": 900}
-    timeout_ms = 60000
+    timeout_ms = 20000
     rule = ("plan = seeded subsets of capability keywords passed to (sandbox ...) in one or several calls x seeded "
             "sequences of calls [binding index, shape seed] resolved at run time against the sorted bindings of "
             "root-env (all / capability-prefixed / armed scenarios) x (main VM | thread started after sandboxing | "
@@ -177,6 +178,10 @@ class C18(Driver):
         "high-resolution time is tested as non-interference of returned values on the simulated clock",
         "os/umask, os/getpid and ev/to-file assert a capability in Janet but perform no operation of a kind the "
         "statement names; they are not flagged",
+        "os/cryptorand opens the fixed device /dev/urandom: recorded by the monitor as fs-read, exempted here (exactly "
+        "that path; not a path of the program's choosing) and counted as probe exempt_dev_urandom",
+        "a worker thread of the runtime (os/shell) has no VM: its operations are attributed to the call that was open "
+        "on the VM thread that created it (the simulator's `!thread create` event)",
     ]
     components = {
         "real": ["interpreter", "compiler", "core library (every binding of root-env)", "event loop", "threads (ev/thread)",
@@ -313,6 +318,7 @@ class C18(Driver):
                 R.ncalls += 1
                 mono(e.tid, c["before"], c["name"])
                 R.stuck_in = c["name"]
+                R.last_name = c["name"]
             elif k == "ret":
                 p = e.payload.split(" ", 3)
                 c = R.calls.get(int(p[0]))
@@ -489,13 +495,15 @@ class C18(Driver):
         if R is None:
             return None
         return {"probes": R.probes, "calls": R.ncalls, "attempts": R.nattempts, "bindings": R.names_n,
-                "stuck_in": R.stuck_in if res.outcome not in ("ok", "deadlock") else None, "outcome": res.outcome}
+                "stuck_in": R.stuck_in if res.outcome not in ("ok", "deadlock") else None, "outcome": res.outcome,
+                "seed": plan["knobs"]["seed"], "last_call": R.last_name}
 
     def aggregate(self, extras):
         probes = {}
         calls = attempts = 0
         bindings = 0
         stuck = {}
+        abnormal = []
         for x in extras:
             if not x:
                 continue
@@ -507,10 +515,13 @@ class C18(Driver):
             if x.get("stuck_in"):
                 key = "%s:%s" % (x["outcome"], x["stuck_in"])
                 stuck[key] = stuck.get(key, 0) + 1
+            if x["outcome"] not in ("ok", "deadlock") and len(abnormal) < 20:
+                abnormal.append({"seed": x["seed"], "outcome": x["outcome"], "last_call_recorded": x["last_call"]})
         return {"probes": probes, "calls_total": calls, "attempts_total": attempts,
                 "bindings_enumerated_at_run_time": bindings, "denylist": DENYLIST,
                 "restricted_shapes": {k: "bounded/restricted argument shapes" for k in OVERRIDES},
-                "max_args": MAXARGS, "runs_that_did_not_finish_last_call": stuck}
+                "max_args": MAXARGS, "runs_that_did_not_finish_last_call": stuck,
+                "runs_that_ended_abnormally": abnormal}
 
     # ------------------------------------------------------------------ shrinking
     def to_explicit(self, plan, res):
